@@ -1,0 +1,87 @@
+//! Verification hook (cargo feature `zvt_verif`, off by default).
+//!
+//! Replaces the TCP socket used by the reconnecting stream with an in-memory
+//! stream obtained from a connector registered per target IPv4 address, so a
+//! simulated terminal can drive the real client deterministically.
+use std::collections::HashMap;
+use std::future::Future;
+use std::net::{Ipv4Addr, SocketAddrV4};
+use std::pin::Pin;
+use std::sync::{Arc, Mutex, OnceLock};
+use std::task::{Context, Poll};
+use tokio::io::{AsyncRead, AsyncWrite, ReadBuf};
+
+/// Anything that behaves like a socket.
+pub trait VerifIo: AsyncRead + AsyncWrite + Unpin + Send {}
+impl<T: AsyncRead + AsyncWrite + Unpin + Send> VerifIo for T {}
+
+pub type ConnectFuture =
+    Pin<Box<dyn Future<Output = std::io::Result<Box<dyn VerifIo>>> + Send + 'static>>;
+
+/// Produces the client side of a new connection (or fails, or never resolves).
+pub trait Connector: Send + Sync {
+    fn connect(&self, addr: SocketAddrV4) -> ConnectFuture;
+}
+
+fn registry() -> &'static Mutex<HashMap<Ipv4Addr, Arc<dyn Connector>>> {
+    static REGISTRY: OnceLock<Mutex<HashMap<Ipv4Addr, Arc<dyn Connector>>>> = OnceLock::new();
+    REGISTRY.get_or_init(|| Mutex::new(HashMap::new()))
+}
+
+/// Registers the connector serving `ip`.
+pub fn install(ip: Ipv4Addr, connector: Arc<dyn Connector>) {
+    registry().lock().unwrap().insert(ip, connector);
+}
+
+/// Removes the connector serving `ip`.
+pub fn uninstall(ip: Ipv4Addr) {
+    registry().lock().unwrap().remove(&ip);
+}
+
+/// Stand-in for [tokio::net::TcpStream].
+pub struct VerifTcpStream {
+    inner: Box<dyn VerifIo>,
+}
+
+impl VerifTcpStream {
+    pub async fn connect(addr: SocketAddrV4) -> std::io::Result<Self> {
+        let connector = registry().lock().unwrap().get(addr.ip()).cloned();
+        match connector {
+            None => Err(std::io::Error::new(
+                std::io::ErrorKind::ConnectionRefused,
+                "zvt_verif: no connector installed",
+            )),
+            Some(connector) => Ok(Self {
+                inner: connector.connect(addr).await?,
+            }),
+        }
+    }
+}
+
+impl AsyncRead for VerifTcpStream {
+    fn poll_read(
+        mut self: Pin<&mut Self>,
+        cx: &mut Context<'_>,
+        buf: &mut ReadBuf<'_>,
+    ) -> Poll<std::io::Result<()>> {
+        Pin::new(&mut self.inner).poll_read(cx, buf)
+    }
+}
+
+impl AsyncWrite for VerifTcpStream {
+    fn poll_write(
+        mut self: Pin<&mut Self>,
+        cx: &mut Context<'_>,
+        buf: &[u8],
+    ) -> Poll<std::io::Result<usize>> {
+        Pin::new(&mut self.inner).poll_write(cx, buf)
+    }
+
+    fn poll_flush(mut self: Pin<&mut Self>, cx: &mut Context<'_>) -> Poll<std::io::Result<()>> {
+        Pin::new(&mut self.inner).poll_flush(cx)
+    }
+
+    fn poll_shutdown(mut self: Pin<&mut Self>, cx: &mut Context<'_>) -> Poll<std::io::Result<()>> {
+        Pin::new(&mut self.inner).poll_shutdown(cx)
+    }
+}
